@@ -19,7 +19,10 @@ negative costs, pre-set indices) through add-costs -> extract; wild-extract (han
 of range, negative, cyclic choices, shared members) through extract only; saturated (create -> REAL
 apply-eqsat-pdl-interp with sound PDL rules lowered by xDSL's own convert-pdl-to-pdl-interp +
 convert-pdl-interp-to-eqsat-pdl-interp -> the engine's e-graph is dumped and add-costs -> extract are compared
-with the model on it).
+with the model on it; the sources plant the rules' left-hand sides, decoy constants, and pairs of operations that
+differ ONLY in a property -- arith.cmpi with two different predicates, addi/subi/muli with different overflow flags
+-- on operands that a unit rule (x+0, x*1, ...) makes congruent, returned as i1 / through select / extui; an
+exception of the engine on such a valid input is an oracle failure with that input as witness).
 Oracle (independent of the model and of the passes): my own evaluator of arith with two's complement wrap-around
 runs the source function and the final extracted function on boundary + random inputs; results must be equal
 and the extracted function must be executable in block order (no use before definition, no left-over class
@@ -92,12 +95,17 @@ ASSUMPTIONS = [
 TRUSTED = []
 
 # ---------------------------------------------------------------------------- name table
-N_RET, N_CLASS, N_CCLASS, N_CONST, N_ADD, N_MUL, N_SUB, N_AND, N_OR, N_XOR, N_TEST = range(11)
+N_RET, N_CLASS, N_CCLASS, N_CONST, N_ADD, N_MUL, N_SUB, N_AND, N_OR, N_XOR, N_TEST, N_CMPI, N_SELECT, N_EXTUI = range(14)
 NAMES = {
     N_RET: "func.return", N_CLASS: "equivalence.class", N_CCLASS: "equivalence.const_class",
     N_CONST: "arith.constant", N_ADD: "arith.addi", N_MUL: "arith.muli", N_SUB: "arith.subi",
     N_AND: "arith.andi", N_OR: "arith.ori", N_XOR: "arith.xori", N_TEST: "test.op",
+    N_CMPI: "arith.cmpi", N_SELECT: "arith.select", N_EXTUI: "arith.extui",
 }
+# payload (`attr`) of a node: the constant's value; the cmpi predicate (0 eq 1 ne 2 slt 3 sle 4 sgt 5 sge 6 ult 7 ule
+# 8 ugt 9 uge); for addi/subi/muli the overflow flags (1 nsw, 2 nuw, 3 both): operations that differ ONLY in
+# properties must stay different e-nodes
+OVERFLOW_OPS = (N_ADD, N_SUB, N_MUL)
 CODES = {v: k for k, v in NAMES.items()}
 BINOPS = [N_ADD, N_MUL, N_SUB, N_AND, N_OR, N_XOR]
 COMM = [N_ADD, N_MUL, N_AND, N_OR, N_XOR]
@@ -127,7 +135,7 @@ def X():
 
     from xdsl.context import Context
     from xdsl.dialects import arith, builtin, eqsat_pdl_interp, equivalence, func, pdl, pdl_interp, test
-    from xdsl.dialects.builtin import IndexType, IntAttr, IntegerAttr, ModuleOp, StringAttr, i32
+    from xdsl.dialects.builtin import IndexType, IntAttr, IntegerAttr, IntegerType, ModuleOp, StringAttr, i32
     from xdsl.ir import Block, BlockArgument, OpResult, Region
     from xdsl.parser import Parser
     from xdsl.transforms.apply_eqsat_pdl_interp import apply_eqsat_pdl_interp
@@ -161,13 +169,30 @@ def build_ir(nargs: int, ty: str, body: list):
     x = X()
     t = ty_of(x, ty)
     block = x.Block(arg_types=[t] * nargs)
-    dummy = x.test.TestOp(result_types=[t])
-    dv = dummy.results[0]
+    i1 = x.IntegerType(1)
+    dummy = x.test.TestOp(result_types=[t, i1])
+    dv, dv1 = dummy.results
+
+    def is_i1(o):       # only comparison results are i1 (they occur in saturation sources only)
+        return o[0] == 1 and body[o[1]][0] == N_CMPI
+
+    def flags(code):
+        fl = [f for b, f in ((1, x.arith.IntegerOverflowFlag.NSW), (2, x.arith.IntegerOverflowFlag.NUW)) if code & b]
+        return x.arith.IntegerOverflowAttr(fl if fl else "none")
+
     ops = []
     for name, attr, operands, nres, cost, mci in body:
         k = len(operands)
         if name == N_RET:
-            op = x.func.ReturnOp(*([dv] * k))
+            op = x.func.ReturnOp(*[dv1 if is_i1(o) else dv for o in operands])
+        elif name == N_CMPI:
+            op = x.arith.CmpiOp(dv, dv, attr)
+        elif name == N_SELECT:
+            op = x.arith.SelectOp(dv1, dv, dv)
+        elif name == N_EXTUI:
+            op = x.arith.ExtUIOp(dv1, t)
+        elif name in OVERFLOW_OPS:
+            op = x.binop[name](dv, dv, overflow=flags(attr))
         elif name == N_CLASS:
             op = x.equivalence.ClassOp(*([dv] * k), min_cost_index=x.IntAttr(mci[0]) if mci else None)
         elif name == N_CCLASS:
@@ -189,11 +214,11 @@ def build_ir(nargs: int, ty: str, body: list):
     for op, nd in zip(ops, body):
         for j, (kind, i) in enumerate(nd[2]):
             op.operands[j] = block.args[i] if kind == 0 else ops[i].results[0]
-    if dv.first_use is not None:
+    if dv.first_use is not None or dv1.first_use is not None:
         raise HarnessBug("placeholder still used")
     rets = [o for o in ops if isinstance(o, x.func.ReturnOp)]
-    nret = len(rets[-1].operands) if rets else 0
-    f = x.func.FuncOp("f", ([t] * nargs, [t] * nret), x.Region(block))
+    ret_types = [v.type for v in rets[-1].operands] if rets else []
+    f = x.func.FuncOp("f", ([t] * nargs, ret_types), x.Region(block))
     m = x.ModuleOp([f])
     return m, block
 
@@ -232,6 +257,13 @@ def dump(block) -> list:
             if not isinstance(a, x.IntegerAttr):
                 raise HarnessBug("non-integer constant")
             attr = a.value.data
+        elif name == N_CMPI:
+            attr = op.properties["predicate"].value.data
+        elif name in OVERFLOW_OPS:
+            fl = op.properties["overflowFlags"].data
+            attr = (1 if x.arith.IntegerOverflowFlag.NSW in fl else 0) + (2 if x.arith.IntegerOverflowFlag.NUW in fl else 0)
+        if set(op.properties) - {"value", "predicate", "overflowFlags"}:
+            raise HarnessBug(f"undumped properties {set(op.properties)}")
         c = op.attributes.get("eqsat_cost")
         cost = [] if c is None else ([c.data] if isinstance(c, x.IntAttr) else [0, 0])
         m = op.attributes.get("min_cost_index")
@@ -490,7 +522,14 @@ def wrapped(name, attr, vals, w):
     mask = (1 << w) - 1
     if name == N_CONST:
         return attr & mask
+    if name == N_SELECT:
+        return vals[1] if vals[0] & 1 else vals[2]
+    if name == N_EXTUI:
+        return vals[0] & 1
     a, b = vals
+    if name == N_CMPI:
+        sa, sb = (a - (1 << w) if a >> (w - 1) else a), (b - (1 << w) if b >> (w - 1) else b)
+        return int([a == b, a != b, sa < sb, sa <= sb, sa > sb, sa >= sb, a < b, a <= b, a > b, a >= b][attr])
     if name == N_ADD:
         return (a + b) & mask
     if name == N_SUB:
@@ -573,7 +612,10 @@ def impl(case):
             raise HarnessBug("builder/dumper round trip")
         if stage_create(m) is not None:
             raise HarnessBug("create failed on a saturation source")
-        saturate(m, case["ty"], case["rules"], case["iters"])
+        try:
+            saturate(m, case["ty"], case["rules"], case["iters"])
+        except Exception:           # the engine aborted on a valid input: reported by the oracle
+            return [[-4]]
         g = dump(block)
         if case.get("fresh"):
             pass                      # replay of a recorded witness: the engine's e-graph is taken as it is now
@@ -612,6 +654,8 @@ def coq_body(body):
 
 
 def coq_expr(case):
+    if case.get("aborted"):
+        return "L (cons (L (cons (I (-4)) nil)) nil)"      # nothing for the model to do: the engine raised
     prog = f"(Prog {case['nargs']} {coq_body(case['body'])})"
     if case["mode"] == "ext":
         return f"c28_extract {prog}"
@@ -633,6 +677,9 @@ def holds(case, r):
     last = r[-1]
     if last[0] == -2:
         return True, ""
+    if last[0] == -4:
+        return False, ("the saturation engine (apply-eqsat-pdl-interp) aborted with an exception on a valid "
+                       f"function and sound rules: {case.get('aborted', 'raised only when re-run')}")
     if last[0] != 0:
         return False, f"pipeline raised (stage results {[s[0:2] if s[0] != 0 else 0 for s in r]}) on a pure single-result arith function"
     try:
@@ -1030,6 +1077,39 @@ def gen_sat(rng, i):
         if rng.random() < 0.5 and len(body) < 9:
             emit(rng.choice(BINOPS), 0, [pick(), pick()])
     rets = [list(vals[-1])] + [list(pick()) for _ in range(rng.choice([0, 0, 1]))]
+    # operations that differ ONLY in a property, on operands that a unit rule makes congruent: `t = a op k`
+    # (k the unit of op, so t joins the class of a), then  cmpi P (t, b)  and  cmpi P' (a, b)  with P != P'
+    # (or addi with different overflow flags).  A congruence closure that forgets properties merges them.
+    if rng.random() < 0.6 and len(body) < 14:
+        unit = {2: (N_MUL, 1), 3: (N_ADD, 0), 4: (N_SUB, 0), 12: (N_OR, 0)}
+        us = [r for r in ids if r in unit]
+        if not us:
+            us = [rng.choice(sorted(unit))]
+            ids = sorted(set(ids) | set(us))
+        name, k = unit[rng.choice(us)]
+        a, b = pick(), pick()
+        t = emit(name, 0, [a, emit(N_CONST, k, [])])
+        vals.pop()                                    # (keep `t` out of later picks of this function)
+
+        def raw(nm, attr, ops):
+            body.append([nm, attr, [list(o) for o in ops], 1, [], []])
+            return R(len(body) - 1)
+
+        if rng.random() < 0.75:
+            p1, p2 = rng.sample(range(10), 2)
+            c1, c2 = raw(N_CMPI, p1, [t, b]), raw(N_CMPI, p2, [a, b])
+            how = rng.choice(["i1", "select", "extui"] if ty == "i32" else ["i1", "select"])
+            if how == "i1":
+                rets += [c1, c2]
+            elif how == "select":
+                u, v = pick(), pick()
+                rets += [raw(N_SELECT, 0, [c1, u, v]), raw(N_SELECT, 0, [c2, u, v])]
+            else:
+                rets += [raw(N_EXTUI, 0, [c1]), raw(N_EXTUI, 0, [c2])]
+        else:
+            f1, f2 = rng.sample(range(4), 2)
+            onm = rng.choice(OVERFLOW_OPS)
+            rets += [raw(onm, f1, [t, b]), raw(onm, f2, [a, b])]
     src = body + [[N_RET, 0, rets, 0, [], []]]
     iters = rng.choice([1, 2, 3, 4])
     return finish_sat(nargs, ty, src, ids, iters, i, rng)
@@ -1039,10 +1119,16 @@ def finish_sat(nargs, ty, src, ids, iters, i, rng=None):
     m, block = build_ir(nargs, ty, src)
     if stage_create(m) is not None:
         raise HarnessBug("create failed")
-    saturate(m, ty, ids, iters)
-    g = dump(block)
+    aborted = None
+    try:
+        saturate(m, ty, ids, iters)
+        g = dump(block)
+    except Exception as e:
+        aborted, g = f"{type(e).__name__}: {str(e)[:200]}", []
     case = {"mode": "sat", "nargs": nargs, "ty": ty, "src": src, "body": g, "rules": ids, "iters": iters,
             "salt": i, "default": 1}
+    if aborted:
+        case["aborted"] = aborted
     if rng is None:
         return case
     case["default"] = rng.choice([1, 1, 2, 0])
